@@ -127,6 +127,25 @@ Theorem C16_resolve_completed_hides_nothing : forall bk L h after inc, gapfree L
 Proof. exact resolve_completed_sound. Qed.
 Print Assumptions C16_resolve_completed_hides_nothing.
 
+(* 8. _stream_events: which cursor a request asks for (after_sequence parameter, Last-Event-ID header). *)
+Theorem C16_stream_cursor : forall sse a l,
+  stream_cursor sse a l =
+  match a with
+  | PGarbage => None
+  | _ => Some (match sse, l with
+               | true, LInt n => Some n
+               | _, _ => match a with PInt n => Some n | _ => None end
+               end)
+  end.
+Proof. exact stream_cursor_spec. Qed.
+Print Assumptions C16_stream_cursor.
+
+Theorem C16_reconnect_by_header : forall bk L tst a k, gapfree L -> a <> PGarbage ->
+  exists c, stream_cursor true a (LInt k) = Some (Some c) /\
+            resolve bk L (HRun tst) (Some c) = resolve bk L (HRun tst) (Some k).
+Proof. exact reconnect_by_header. Qed.
+Print Assumptions C16_reconnect_by_header.
+
 (* ---- non-vacuity ---- *)
 Definition ev_a (p : Z) : evt := mkE 2 None p.                     (* a plain event *)
 Definition ev_int (p : Z) : evt := mkE 3 (Some [INTERNAL]) p.      (* subclass of InternalDispatchEvent *)
